@@ -23,6 +23,11 @@ The transformations (each preserves evaluation order, values and side effects):
   T14 else after return    `if c: ...return\n rest`  ->  `if c: ...return else: rest`   (last statements of a function body)
   T17 tuple assignment     `a, b = x, y`  ->  `_mm0 = x; _mm1 = y; a = _mm0; b = _mm1`
   T1b operand extraction   `if f(x) > k:` -> `_mm = f(x); if _mm > k:` ; `y = g(a, h(b))` -> `_mm = h(b); y = g(a, _mm)` (first non-trivial argument)
+  T21 annotated assignment `x = v` -> `x: object = v` (also `self.a: object = v`)
+  T22 signature annotations every parameter and the return value annotated
+  T23 docstring            a docstring inserted where there is none
+  T28 keyword argument     the last positional argument of a call to a function of the same module / class passed by keyword
+  T31 independent inits    two adjacent initialisations of different locals from literals / names swapped
   T18 temp inlining        `v = E; <next statement reads v once>` -> E written in place of v (only where evaluation order is kept)
 """
 from __future__ import annotations
@@ -139,6 +144,59 @@ def find_sites(path: Path):
                     return [ast.Assign(targets=[ast.Name(id=v, ctx=ast.Store())], value=st.test, lineno=0), new]
 
                 add("T1", st, mk)
+            # T21: annotated assignment (annotations of locals are not evaluated; `self.x: T = v` is allowed too)
+            if isinstance(st, ast.Assign) and len(st.targets) == 1 and isinstance(st.targets[0], ast.Name | ast.Attribute) and not _has_walrus_or_yield(st):
+                if not (isinstance(st.targets[0], ast.Name) and sum(1 for x in ast.walk(fn) if isinstance(x, ast.AnnAssign) and isinstance(x.target, ast.Name) and x.target.id == st.targets[0].id)):
+                    def mk(st=st):
+                        return [ast.AnnAssign(target=st.targets[0], annotation=ast.Name(id="object", ctx=ast.Load()), value=st.value, simple=1 if isinstance(st.targets[0], ast.Name) else 0)]
+
+                    add("T21", st, mk)
+            # T31: two adjacent independent simple initialisations swapped
+            par_ = getattr(st, "_mm_parent", None)
+            for fld_ in ("body", "orelse"):
+                blk_ = getattr(par_, fld_, None)
+                if isinstance(blk_, list) and st in blk_:
+                    i_ = blk_.index(st)
+                    if i_ + 1 < len(blk_):
+                        nx = blk_[i_ + 1]
+                        simple = lambda q: isinstance(q, ast.Assign) and len(q.targets) == 1 and isinstance(q.targets[0], ast.Name) and isinstance(q.value, ast.Constant | ast.Name | ast.List | ast.Dict | ast.Tuple) and not any(isinstance(x, ast.Call | ast.Attribute | ast.Subscript) for x in ast.walk(q.value))  # noqa: E731
+                        if simple(st) and simple(nx):
+                            a_t, b_t = st.targets[0].id, nx.targets[0].id
+                            a_r = {x.id for x in ast.walk(st.value) if isinstance(x, ast.Name)}
+                            b_r = {x.id for x in ast.walk(nx.value) if isinstance(x, ast.Name)}
+                            if a_t != b_t and a_t not in b_r and b_t not in a_r:
+                                def mk(st=st, nx=nx):
+                                    return [nx, st]
+
+                                s31 = Site("T31", rel, counters.get("T31", 0), st, mk)
+                                s31.until = nx
+                                counters["T31"] = counters.get("T31", 0) + 1
+                                sites.append(s31)
+            # T28: the last positional argument of a call to a function of this module passed by keyword
+            if isinstance(st, ast.Assign | ast.Return | ast.Expr) and isinstance(st.value, ast.Call) and st.value.args and not any(isinstance(a_, ast.Starred) for a_ in st.value.args):
+                call = st.value
+                callee = None
+                if isinstance(call.func, ast.Name):
+                    callee = next((d for d in tree.body if isinstance(d, ast.FunctionDef) and d.name == call.func.id), None)
+                    skip = 0
+                elif isinstance(call.func, ast.Attribute) and isinstance(call.func.value, ast.Name) and call.func.value.id == "self":
+                    cls_ = next((c for c in ast.walk(tree) if isinstance(c, ast.ClassDef) and fn in c.body), None)
+                    callee = next((d for d in (cls_.body if cls_ else []) if isinstance(d, ast.FunctionDef) and d.name == call.func.attr), None)
+                    skip = 1
+                    if callee is not None and any(isinstance(d, ast.Name) and d.id in ("staticmethod", "classmethod", "property") for d in callee.decorator_list):
+                        callee = None
+                if callee is not None and not callee.args.posonlyargs and not callee.args.vararg:
+                    k = len(call.args) - 1
+                    ps_ = [a_.arg for a_ in callee.args.args][skip:]
+                    if k < len(ps_) and ps_[k] not in {kw_.arg for kw_ in call.keywords}:
+                        def mk(st=st, k=k, pn=ps_[k]):
+                            new = copy.copy(st)
+                            new.value = copy.copy(st.value)
+                            new.value.args = list(st.value.args[:k])
+                            new.value.keywords = [ast.keyword(arg=pn, value=st.value.args[k]), *st.value.keywords]
+                            return [new]
+
+                        add("T28", st, mk)
             # T1b: name an operand that is evaluated first anyway
             if isinstance(st, ast.If) and not _is_elif(st) and isinstance(st.test, ast.Compare) and isinstance(st.test.left, ast.Call | ast.Attribute | ast.Subscript | ast.BinOp) and not _has_walrus_or_yield(st.test):
                 def mk(st=st, v=fresh("_mm")):
@@ -252,6 +310,25 @@ def find_sites(path: Path):
                 s_.until = rest[-1]
                 counters["T14"] = counters.get("T14", 0) + 1
                 sites.append(s_)
+        # T22: every parameter annotated, return annotated; T23: a docstring where there is none
+        if not any(a_.annotation for a_ in ast.walk(fn.args) if isinstance(a_, ast.arg)) and fn.name != "__init__":
+            def mk(fn=fn):
+                f2 = copy.deepcopy(fn)
+                for a_ in ast.walk(f2.args):
+                    if isinstance(a_, ast.arg) and a_.arg not in ("self", "cls"):
+                        a_.annotation = ast.Name(id="object", ctx=ast.Load())
+                if f2.returns is None:
+                    f2.returns = ast.Name(id="object", ctx=ast.Load())
+                return [f2]
+
+            add("T22", fn, mk)
+        if not (fn.body and isinstance(fn.body[0], ast.Expr) and isinstance(fn.body[0].value, ast.Constant) and isinstance(fn.body[0].value.value, str)):
+            def mk(fn=fn):
+                f2 = copy.deepcopy(fn)
+                f2.body.insert(0, ast.Expr(value=ast.Constant(value="Documented.")))
+                return [f2]
+
+            add("T23", fn, mk)
         # T18: a temporary that is consumed by the very next statement is substituted into it (the reverse of T1)
         try:
             from sa.model import apply_subst, subst_candidates
